@@ -5,7 +5,7 @@ PROP = dict(
     bounded_budget=dict(quick=45, thorough=420),
     assumptions=[],
     trusted_base=['z3 5.1 / cvc5 1.0.3', 'pyvc symbolic executor (DESIGN.md §2)'],
-    manifest=dict(text='Proof: OrderedSet.__init__ (both forms), add, discard, pop, __len__, __contains__, __iter__, __reversed__, __eq__, QuerySet.first/last and the stdlib mixins remove/__ior__ are proved against the abstract view (a duplicate-free sequence in insertion order) with the doubly linked ring as representation invariant, for every set and every element. Bounded (separately): operation sequences cross-checked against a list model.',
+    manifest=dict(text='Proof: OrderedSet.__init__ (both forms), add, discard, pop, __len__, __contains__, __iter__, __reversed__, __eq__, QuerySet.first/last and the stdlib mixins remove/__ior__ are proved against the abstract view (a duplicate-free sequence in insertion order) with the doubly linked ring as representation invariant, for every set and every element; construction from an iterable and in-place union place pairwise distinct new arrivals after the old elements in arrival order. A repository class that redefines one of the inherited mixins puts that proof outside the verified subset for the run (override guard). Bounded (separately): operation sequences cross-checked against a list model.',
                   note='hash/eq coherence of elements (PY-7); the remaining MutableSet mixins are bounded.',
                   technique="contract-based deductive verification: sidecar contracts on the real functions, verification conditions generated from the current source of /repo on every run by pyvc (Python AST -> z3/cvc5), every obligation discharged function by function; bounded stand-in (run-time contracts on the real functions driven by small-scope enumeration; labelled bounded, never counted as proved) for the functions outside the verifier's reach, reported separately"),
 )
